@@ -680,9 +680,11 @@ def _seeded_jobs():
 def seeded(argv) -> int:
     """Regression over /verif/seeded: every kept change must still be flagged by the checks recorded as catching it."""
     only = next((a.split("=", 1)[1] for a in argv if a.startswith("--id=")), None)
-    jobs = [j for j in _seeded_jobs() if only is None or only in j[0]]
+    only_prop = next((a.split("=", 1)[1] for a in argv if a.startswith("--property=")), None)
+    parallel = int(next((a.split("=", 1)[1] for a in argv if a.startswith("--parallel=")), 4))
+    jobs = [j for j in _seeded_jobs() if (only is None or only in j[0]) and (only_prop is None or j[2] == only_prop)]
     bad = 0
-    with ThreadPoolExecutor(4) as ex:
+    with ThreadPoolExecutor(parallel) as ex:
         for label, prop, expect, verdict, detail, dt in ex.map(
                 lambda j: _run_patch_job((j[0], j[1], j[2], "flag" if j[3] == "flag" else "quiet")), jobs):
             if expect == "quiet":  # recorded as (still) missed: either outcome is informative, none is an error
@@ -698,16 +700,20 @@ def preserving(argv) -> int:
     """Regression over /verif/preserving: behaviour-preserving patches must leave all four quick checks quiet
     (p14-2 on C15 is the recorded true positive)."""
     only = next((a.split("=", 1)[1] for a in argv if a.startswith("--id=")), None)
+    only_prop = next((a.split("=", 1)[1] for a in argv if a.startswith("--property=")), None)
+    parallel = int(next((a.split("=", 1)[1] for a in argv if a.startswith("--parallel=")), 4))
     base = os.path.join(VERIF, "preserving")
     jobs = []
     for pid in sorted(os.listdir(base)):
         if only is not None and only not in pid:
             continue
         for prop in ("C13", "C14", "C15", "C18"):
+            if only_prop is not None and prop != only_prop:
+                continue
             expect = "flag" if (pid, prop) == ("p14-2", "C15") else "quiet"
             jobs.append((pid, os.path.join(base, pid, "patch.diff"), prop, expect))
     bad = 0
-    with ThreadPoolExecutor(4) as ex:
+    with ThreadPoolExecutor(parallel) as ex:
         for label, prop, expect, verdict, detail, dt in ex.map(_run_patch_job, jobs):
             print(f"{verdict:13s} {prop} {expect:5s} {label:10s} {dt:7.1f}s  {detail}")
             sys.stdout.flush()
